@@ -638,6 +638,7 @@ func lineBreakRule(p *core.Program, r *core.Report) {
 
 func c13Controls() []core.Mutant {
 	return []core.Mutant{
+		{Name: "refactor: emit computes the opcode offset before appending", File: "compiler/compiler.go", Old: "\tc.bytecode = append(c.bytecode, op)\n\tcurrent := len(c.bytecode)\n\tc.bytecode = append(c.bytecode, b...)\n", New: "\tat := len(c.bytecode)\n\tc.bytecode = append(c.bytecode, op)\n\tcurrent := at + 1\n\tc.bytecode = append(c.bytecode, b...)\n", Silent: true},
 		{Name: "source line table also breaks at carriage returns", File: "file/source.go", Old: "\tlines := strings.Split(string(s.contents), \"\\n\")", New: "\tlines := strings.Split(strings.ReplaceAll(string(s.contents), \"\\r\", \"\\n\"), \"\\n\")", Rule: "R13.9", Construct: "break lines at the same characters"},
 		{Name: "checker returns its error unbound", File: "checker/checker.go", Old: "return t, v.err.Bind(tree.Source)", New: "return t, v.err", Rule: "R13.5", Construct: "checker.Check"},
 		{Name: "Compile passes the optimizer's error on unbound", File: "expr.go", Old: "return nil, fileError.Bind(tree.Source)", New: "return nil, fileError", Rule: "R13.5", Construct: "optimizer.Optimize"},
